@@ -89,6 +89,17 @@ func TestSurvey(t *testing.T) {
 		fmt.Println(seen)
 		return
 	}
+	if os.Getenv("C08_SURVEY") == "tolerated" {
+		n := 0
+		rapid.Check(t, func(rt *rapid.T) {
+			c := genProg(rt)
+			if f := runCase(c); f != nil && n < 12 {
+				n++
+				fmt.Printf("--- %s\n%s\n", f.Sig, f.Msg)
+			}
+		})
+		return
+	}
 	if os.Getenv("C08_SURVEY") == "prog" {
 		rapid.Check(t, func(rt *rapid.T) {
 			if rapid.IntRange(0, 11).Draw(rt, "mode") == 0 {
